@@ -1,4 +1,5 @@
 import FitProps.WireLemmas
+import FitProps.BridgeLemmas
 import FitProps.CrcAlgebra
 import FitProps.C18
 import FitModel.FitFormat
@@ -6,11 +7,13 @@ import FitModel.FitFormat
 # C02 — Successful encodes are well-formed, self-consistent FIT streams
 
 Specification: `FitModel/FitFormat.lean` (independent reading of the protocol framing).
-PROPERTY THEOREMS: C02_datasize, C02_header_crc, C02_crc_whole_sequence_partial, C02_legacy_crc_witness,
+PROPERTY THEOREMS: C02_parses, C02_datasize, C02_header_crc, C02_crc_whole_sequence_partial, C02_legacy_crc_witness,
 C02_decodes (the SDK's own decoder accepts every successful encode, with checksums on)
-The structural half of `WellFormed` (parseStream succeeds on every encoder output) is evaluated on the
-implementation's bytes by the driver (`--prop` of family encw); its proof over the model is not done yet
-(`C02_wellformed_full` below stays a `def`).
+The structural half of `WellFormed` is `C02_parses` (via the refinement "the decoder's framing refines the
+spec's framing", FitProps/BridgeLemmas.lean: records_spec); the CRC half is `C02_header_crc` and
+`C02_crc_whole_sequence_partial` at the byte level. What is not done is only the bookkeeping that restates the
+two CRC theorems through `SeqView.start`/`slice` offsets of a chain (`C02_wellformed_full` stays a `def`);
+`WellFormed` as a whole is evaluated on the implementation's bytes by the driver (`--prop` of family encw).
 -/
 namespace Fit.C02
 open Fit.Wire
@@ -21,6 +24,20 @@ def C02_wellformed_full : Prop :=
   ∀ (o : Opts), OptsOK o → ∀ fits : List (Hdr × List WMsg), (∀ f ∈ fits, FitOK o f.1 f.2) →
     ∃ seqs, FitFormat.parseStream (encodeChain o fits) = some seqs ∧ seqs.length = fits.length ∧
       ∀ s ∈ seqs, FitFormat.headerCrcOk (encodeChain o fits) s = true ∧ FitFormat.fileCrcOk (encodeChain o fits) s = true
+
+/-- THE STREAM PARSES under the independent framing spec: every successful encode of a chain is exactly one
+sequence view per FIT value — header, records that fill the declared data size exactly (every data record
+has a live definition of its local number), two CRC bytes — with nothing between or after the sequences. -/
+theorem C02_parses (o : Opts) (ho : OptsOK o) (fits : List (Hdr × List WMsg)) (hall : ∀ f ∈ fits, FitOK o f.1 f.2) :
+    ∃ seqs, FitFormat.parseStream (encodeChain o fits) = some seqs ∧ seqs.length = fits.length := by
+  have hlen : fits.length ≤ (encodeChain o fits).length := by
+    clear hall
+    induction fits with
+    | nil => simp
+    | cons f fs ih =>
+      have := Bridge.encodeFit_length_pos o f.1 f.2
+      simp [encodeChain, List.length_append] at ih ⊢; omega
+  exact Bridge.parseSeqs_encodeChain o ho fits hall 0 _ hlen
 
 /-- DATA SIZE: the four data-size bytes of the header the encoder leaves on the wire are the little-endian
 exact number of record bytes that follow (before the two CRC bytes) — for every message list and option
